@@ -565,6 +565,51 @@ val client_loop :
 val exchange_recv :
   (bytes -> bytes) -> z -> bool -> bytes -> bytes -> bytes list -> outcome
 
+type xret =
+| XPacket of packet
+| XErr of n
+| XCtxErr
+| XNetErr
+
+type mpc =
+| M_start
+| M_dialled
+| M_reading of z
+| M_returned of xret
+
+type hpc =
+| Hp_none
+| Hp_running
+| Hp_exited
+
+type xstate = { xmain : mpc; xhelper : hpc; ctx_done : bool;
+                derived_done : bool; conn_closed : bool;
+                ticker_stopped : bool; sent : bytes list }
+
+type xevent =
+| XStep
+| XDialFail
+| XDatagram of bytes
+| XReadErr
+| XTick
+| XCtxDone
+| XHelper
+
+val xinit : xstate
+
+val set_main : xstate -> mpc -> xstate
+
+val do_return : xstate -> xret -> xstate
+
+val write : xstate -> bytes -> bytes list
+
+val xstep :
+  (bytes -> bytes) -> z -> z -> bool -> packet -> xstate -> xevent -> xstate
+
+val xrun :
+  (bytes -> bytes) -> z -> z -> bool -> packet -> xstate -> xevent list ->
+  xstate
+
 type key = n * n
 
 val key_eqb : key -> key -> bool
@@ -708,7 +753,7 @@ type dpc =
 | D_exit
 | D_end
 
-type hpc =
+type hpc0 =
 | H_start
 | H_locked
 | H_close
@@ -723,7 +768,7 @@ type hpc =
 type thread =
 | TServe of nat * spc
 | TDgram of dpc
-| TShut of hpc * bool
+| TShut of hpc0 * bool
 
 type state = { mu : bool; shut : bool; active : z; closes : nat; sdec : 
                bool; regs : nat list; closedc : nat list; cancelled : 
@@ -754,7 +799,7 @@ val step_serve : bool -> state -> nat -> nat -> spc -> action -> state option
 
 val step_dgram : state -> nat -> dpc -> action -> state option
 
-val step_shut : state -> nat -> hpc -> bool -> action -> state option
+val step_shut : state -> nat -> hpc0 -> bool -> action -> state option
 
 val step : bool -> state -> nat -> action -> state option
 
@@ -1020,5 +1065,9 @@ val take_devents : z list -> bytes list -> devent list
 val t_dout : dout -> tok list
 
 val dispatch_c06 : bytes -> bytes list -> z list -> tok list option
+
+val take_xevents : z list -> bytes list -> xevent list * bytes list
+
+val dispatch_c08 : bytes -> bytes list -> z list -> tok list option
 
 val dispatch : bytes -> bytes list -> z list -> tok list
